@@ -20,6 +20,10 @@ import Wbxml.Lemmas.AllocCont
 import Wbxml.Lemmas.AllocParse
 import Wbxml.Lemmas.AllocEnc
 import Wbxml.Lemmas.AllocStrtbl
+import Wbxml.Lemmas.AllocWords
+import Wbxml.Lemmas.AllocInit
+import Wbxml.Lemmas.AllocEncTree
+import Wbxml.Lemmas.AllocTreeD
 import Wbxml.Model.AllocOld
 namespace Wbxml.Props.C16
 open Wbxml Wbxml.Model.Alloc
@@ -354,27 +358,154 @@ theorem encoder_init_output_clean (e : AEnc) (s : Ledger) (wf : s.WF) (own : Own
   clean_of_spec fun s' hl hn => (encInitOutput_spec e s' (wf_of_eq wf hl hn) (owns_of_eq own hl) hok).mono
     fun r t ⟨⟨_, c, _, _⟩, _, _, h, _⟩ => ⟨c, fun hh => by rw [h hh]; rfl⟩
 
-/-- `encoder_encode_tree` (repaired) without string table: the encoder stays the caller's on every
-    exit (it is "consumed and produced again"), and a failure is reported. -/
+/-! ### The string-table chain -/
+
+/-- `wbxml_strtbl_collect_strings` — which IGNORES a failed `wbxml_list_append` on purpose — for every
+    list of text nodes and every schedule: no fault; the only blocks allocated are the new cells of
+    the list, one per string the list now refers to; these strings are a sub-sequence of the
+    collectable text nodes (all of them when no request failed); nothing is released; exactly one
+    request per collectable text node. -/
+theorem strtbl_collect_strings_clean (texts : List ABuf) (strings : AList ABuf) (s : Ledger) (wf : s.WF)
+    (hs : strings.hdr ∈ s.live) (hl : ∀ t ∈ texts, t.hdr ∈ s.live) :
+    ∀ sched : List Nat, ∃ r s', run (collectStrings strings texts) { s with sched := sched } = (.ok r, s') ∧
+      r.hdr = strings.hdr ∧ ∃ newc : List (Nat × ABuf), r.cells = strings.cells ++ newc ∧
+        (∀ i, i ∈ s'.live ↔ i ∈ s.live ∨ i ∈ newc.map (·.1)) ∧ (newc.map (·.1)).Nodup ∧
+        (newc.map (·.2)).Sublist (texts.filter collectable) ∧
+        (s'.hits = s.hits → newc.map (·.2) = texts.filter collectable) ∧
+        s'.next = s.next + (texts.filter collectable).length := by
+  intro sched
+  obtain ⟨r, t, hrun, eh, newc, hc, c, sub, all, n⟩ :=
+    (collectStrings_spec texts strings { s with sched := sched } (wf_of_eq wf rfl rfl) hs hl).elim
+  exact ⟨r, t, hrun, eh, newc, hc, fun i => by have := c.live i; simpa using this, c.nodup, sub, all, n⟩
+
+/-- `wbxml_buffer_split_words_real` (repaired): the list with the words it owns, or NULL with
+    everything released; NULL whenever a request failed. -/
+theorem buffer_split_words_clean (b : ABuf) (s : Ledger) (wf : s.WF) (hb : b.hdr ∈ s.live) :
+    AnyScheduleClean (splitWords b) Option.isNone s [] bufListOwned :=
+  clean_of_spec fun s' hl hn => (splitWords_spec b s' (wf_of_eq wf hl hn) (by rw [hl]; exact hb)).mono
+    fun r t ⟨c, h⟩ => ⟨c, fun hh => by rw [h hh]; rfl⟩
+
+/-- The word-moving loop of `wbxml_strtbl_collect_words`: the words of `temp_list` end up in `list`
+    (the emptied `temp_list` struct is left to the caller), or — on a failed append — the word in
+    hand, the rest of `temp_list` with its struct and `list` are all released and NULL is returned. -/
+theorem strtbl_move_words_clean (cells : List (Nat × ABuf)) (tHdr : Nat) (list : AList ABuf) (s : Ledger) (wf : s.WF)
+    (own : Owns s ((tHdr :: cellsOwned ABuf.owned cells) ++ bufListOwned (some list))) :
+    AnyScheduleClean (moveWords tHdr list cells) Option.isNone s
+      ((tHdr :: cellsOwned ABuf.owned cells) ++ bufListOwned (some list))
+      (fun r => match r with | none => [] | some l => tHdr :: bufListOwned (some l)) :=
+  clean_of_spec fun s' hl hn => (moveWords_spec cells tHdr list s' (wf_of_eq wf hl hn) (owns_of_eq own hl)).mono
+    fun r t ⟨c, h⟩ => ⟨c, fun hh => by rw [h hh]; rfl⟩
+
+/-- `wbxml_strtbl_collect_words` (repaired): the elements are only read; the result is the list of
+    words with the words it owns, or an error with everything released; an error whenever a request
+    failed. -/
+theorem strtbl_collect_words_clean (elements : AList StrElt) (s : Ledger) (wf : s.WF) (hh : elements.hdr ∈ s.live)
+    (hl : ∀ x ∈ elements.items, x.hdr ∈ s.live ∧ x.string.hdr ∈ s.live) :
+    AnyScheduleClean (collectWords elements) (fun r => r.1 != OK) s [] (fun r => bufListOwned r.2) :=
+  clean_of_spec fun s' hl' hn =>
+    (collectWords_spec elements s' (wf_of_eq wf hl' hn) (by rw [hl']; exact hh) (fun x hx => by rw [hl']; exact hl x hx)).mono
+      fun r t ⟨c, _, h⟩ => ⟨c, fun hh => by simpa using h hh⟩
+
+/-- … and an error never comes with a list. -/
+theorem strtbl_collect_words_error_has_no_list (elements : AList StrElt) (s : Ledger) (wf : s.WF) (hh : elements.hdr ∈ s.live)
+    (hl : ∀ x ∈ elements.items, x.hdr ∈ s.live ∧ x.string.hdr ∈ s.live) :
+    Good (collectWords elements) s (fun r _ => r.1 ≠ OK → r.2 = none) :=
+  (collectWords_spec elements s wf hh hl).mono fun r t ⟨_, h, _⟩ => h
+
+/-- A valid string table: offsets consecutive from 0 and adding up to `strstbl_len`, no two entries
+    with the same bytes (`TblInv`), and every entry owns its string (so the table survives the tree). -/
+def TableValid (e : AEnc) : Prop :=
+  TblInv e ∧ ∀ l, e.strstbl = some l → ∀ x ∈ l.items, x.stat = false
+
+theorem TableValid.step {e e' : AEnc} (h : TableValid e) (hi : TblInv e → TblInv e') (hg : TblGrew e e') : TableValid e' := by
+  refine ⟨hi h.1, fun l' hl' x hx => ?_⟩
+  rcases hg l' hl' x hx with ⟨l, hl, hxl⟩ | h'
+  · exact h.2 l hl x hxl
+  · exact h'
+
+/-- The encoder as `wbxml_encoder_create` makes it has a valid (empty) table. -/
+theorem TableValid.of_empty {e : AEnc} (l : AList StrElt) (hl : e.strstbl = some l) (hc : l.items = []) (hlen : e.strstblLen = 0) :
+    TableValid e :=
+  ⟨⟨l, hl, by rw [hc, hlen]; rfl, by rw [hc]; exact List.nodup_nil⟩, fun l' hl' x hx => by
+    rw [hl] at hl'; cases hl'; rw [hc] at hx; cases hx⟩
+
+theorem fails_iff_mem (s : Ledger) (k : Nat) : s.fails k = true ↔ k ∈ s.sched := by
+  simp [Ledger.fails]
+
+/-- `wbxml_strtbl_initialize` as a whole, for every encoder, every list of text nodes (borrowed from
+    the tree: live, not the encoder's) and EVERY failure schedule:
+      * no fault;
+      * everything allocated is owned by the encoder afterwards (in its string table) or released,
+        the text buffers are untouched:  live' = (live ∖ encoder) ∪ encoder';
+      * the string table is valid on every exit (`TableValid`) — in particular when a failure was
+        ignored and `WBXML_OK` is returned with a smaller table;
+      * a failed request is reported as an error code, EXCEPT at the request sites listed in
+        `InitBenign`, whose failure the code ignores on purpose:
+          - `wbxml_strtbl_initialize>wbxml_strtbl_collect_strings>wbxml_list_append#1`
+            (request numbers `next+2 … next+1+#collectable`): the string is just not shared;
+          - every request below the second `wbxml_strtbl_check_references(…, FALSE)`
+            (`wbxml_list_create_real#1`, `wbxml_strtbl_element_create#1`, `wbxml_list_append#1`,
+            `wbxml_strtbl_add_element>wbxml_list_append#1`): the words only improve the table;
+      * the result is an error, or the result of the un-failed run, or `WBXML_OK` after a failure at
+        one of those sites. -/
+theorem strtbl_initialize_clean (e : AEnc) (texts : List ABuf) (s : Ledger) (wf : s.WF) (own : Owns s e.owned)
+    (htx : ∀ t ∈ texts, t.hdr ∈ s.live ∧ t.hdr ∉ e.owned) (hval : TableValid e) :
+    ∀ sched : List Nat, ∃ r s', run (strtblInitialize e texts) { s with sched := sched } = (.ok r, s') ∧
+      (∀ i, i ∈ s'.live ↔ (i ∈ s.live ∧ i ∉ e.owned) ∨ i ∈ r.1.owned) ∧
+      r.1.hdr = e.hdr ∧ r.1.output = e.output ∧ TableValid r.1 ∧
+      (∀ k ∈ sched, s.next < k → k ≤ s'.next → ¬ InitBenign e texts { s with sched := sched } k → r.2 ≠ OK) ∧
+      (r.2 ≠ OK ∨ (run (strtblInitialize e texts) { s with sched := [] }).1 = .ok r ∨
+        (r.2 = OK ∧ ∃ k ∈ sched, s.next < k ∧ k ≤ s'.next ∧ InitBenign e texts { s with sched := sched } k)) := by
+  intro sched
+  obtain ⟨r, t, hrun, eh, eo, _, c, hg, hi, hrep⟩ :=
+    (strtblInitialize_spec e texts { s with sched := sched } (wf_of_eq wf rfl rfl) (owns_of_eq own rfl) htx).elim
+  have hrep' : ∀ k ∈ sched, s.next < k → k ≤ t.next → ¬ InitBenign e texts { s with sched := sched } k → r.2 ≠ OK := by
+    intro k hk a b hnb
+    refine hrep k ((fails_iff_mem _ k).2 hk) a b (fun hw => hnb (Or.inl hw)) (fun hp => hnb (Or.inr ⟨hp, ?_⟩))
+    rw [hrun]; exact b
+  refine ⟨r, t, hrun, c.live, eh, eo, hval.step hi hg, hrep', ?_⟩
+  by_cases hret : r.2 = OK
+  · by_cases hh : ({ s with sched := sched } : Ledger).hits < t.hits
+    · obtain ⟨k, hf, a, b⟩ := fail_of_hits hrun hh
+      have hk : k ∈ sched := (fails_iff_mem _ k).1 hf
+      refine Or.inr (Or.inr ⟨hret, k, hk, a, b, ?_⟩)
+      apply Classical.byContradiction
+      intro hnb
+      exact hrep' k hk a b hnb hret
+    · refine Or.inr (Or.inl ?_)
+      have hle := c.hits
+      have heq : (run (strtblInitialize e texts) { s with sched := sched }).2.hits = ({ s with sched := sched } : Ledger).hits := by
+        rw [hrun]; simp at hle hh ⊢; omega
+      have := run_nohit _ { s with sched := sched } heq
+      rw [hrun] at this
+      simpa using congrArg Prod.fst this
+  · exact Or.inl hret
+
+/-- `encoder_encode_tree` (repaired), with or without string table, for every tree (text nodes
+    `texts`, body chunks `body`) and every schedule: the encoder stays the caller's on every exit
+    (it is "consumed and produced again"), nothing else is left allocated, its string table is valid,
+    and a failed request is reported unless it is one of the benign ones (`EncBenign`: the sites of
+    `strtbl_initialize_clean`; none without string table). -/
+theorem encoder_encode_tree_strtbl (texts : List ABuf) (body : List Bytes) (e : AEnc)
+    (s : Ledger) (wf : s.WF) (own : Owns s e.owned) (hout : e.output = none)
+    (htx : ∀ t ∈ texts, t.hdr ∈ s.live ∧ t.hdr ∉ e.owned)
+    (htbl : ∀ l, e.strstbl = some l → l.items = []) (hinv : TblInv e) :
+    ∀ sched : List Nat, ∃ r s', run (encodeTree e texts body) { s with sched := sched } = (.ok r, s') ∧
+      (∀ i, i ∈ s'.live ↔ (i ∈ s.live ∧ i ∉ e.owned) ∨ i ∈ r.1.owned) ∧ TblInv r.1 ∧
+      (∀ l, r.1.strstbl = some l → ∀ x ∈ l.items, x.string.hdr ∈ s'.live ∧ x.string.hdr ∉ ownedBufOpt r.1.output) ∧
+      (∀ k ∈ sched, s.next < k → k ≤ s'.next → ¬ EncBenign e texts { s with sched := sched } k → r.2 ≠ OK) := by
+  intro sched
+  obtain ⟨r, t, hrun, ⟨_, c, _, _⟩, hs, _, hi, hrep⟩ :=
+    (encodeTree_spec texts body e { s with sched := sched } (wf_of_eq wf rfl rfl) (owns_of_eq own rfl) hout htx htbl).elim
+  exact ⟨r, t, hrun, c.live, hi hinv, hs, fun k hk a b hnb => hrep k ((fails_iff_mem _ k).2 hk) a b hnb⟩
+
+/-- Without string table every failure is reported (the `AnyScheduleClean` clause). -/
 theorem encoder_encode_tree_clean (body : List Bytes) (e : AEnc) (s : Ledger) (wf : s.WF) (own : Owns s e.owned)
     (hout : e.output = none) (hu : e.useStrtbl = false) (htbl : ∀ l, e.strstbl = some l → l.items = []) :
     AnyScheduleClean (encodeTree e [] body) (fun r => r.2 != OK) s e.owned (fun r => r.1.owned) :=
   clean_of_spec fun s' hl hn =>
-    (encodeTree_spec [] body e s' (wf_of_eq wf hl hn) (owns_of_eq own hl) hout (fun h => by rw [hu] at h; cases h) htbl).mono
-      fun r t ⟨⟨_, c, _, _⟩, _, h⟩ => ⟨c, fun hh => by simpa using h hu hh⟩
-
-/-- With the string table: no fault and no leak whatever fails, PROVIDED `wbxml_strtbl_initialize`
-    is clean (`InitClean`, not proved here: its allocation behaviour is tied by the OOM S
-    correspondence and the enumeration).  No "a failure is reported" clause: allocations that only
-    serve the sharing of strings are inessential. -/
-theorem encoder_encode_tree_strtbl_partial (texts : List ABuf) (hinit : InitClean texts) (body : List Bytes) (e : AEnc)
-    (s : Ledger) (wf : s.WF) (own : Owns s e.owned) (hout : e.output = none) (htbl : ∀ l, e.strstbl = some l → l.items = []) :
-    ∀ sched : List Nat, ∃ r s', run (encodeTree e texts body) { s with sched := sched } = (.ok r, s') ∧
-      (∀ i, i ∈ s'.live ↔ (i ∈ s.live ∧ i ∉ e.owned) ∨ i ∈ r.1.owned) := by
-  intro sched
-  obtain ⟨r, t, hrun, ⟨_, c, _, _⟩, _, _⟩ :=
-    (encodeTree_spec texts body e { s with sched := sched } (wf_of_eq wf rfl rfl) (owns_of_eq own rfl) hout (fun _ => hinit) htbl).elim
-  exact ⟨r, t, hrun, c.live⟩
+    (encodeTree_spec [] body e s' (wf_of_eq wf hl hn) (owns_of_eq own hl) hout (fun t ht => by cases ht) htbl).mono
+      fun r t ⟨⟨_, c, _, _⟩, _, h, _⟩ => ⟨c, fun hh => by simpa using h hu hh⟩
 
 /-- `wbxml_build_result`: the encoder is only read, the header never outlives the call. -/
 theorem build_result_clean (e : AEnc) (version publicId : Nat) (s : Ledger) (wf : s.WF) (hl : e.hdr ∈ s.live)
@@ -404,44 +535,216 @@ def OomResultSound (conv : Prog (Nat × Option (Nat × Bytes))) (s : Ledger) : P
     ((r.1 ≠ OK ∧ r.2 = none ∧ ∀ i, i ∈ s'.live ↔ i ∈ s.live) ∨
      ((run conv { s with sched := [] }).1 = .ok r ∧ ∀ i, i ∈ s'.live ↔ i ∈ s.live ∨ i ∈ ownedResult r.2))
 
-/-- `oom_result_sound`, proved for the part of the pipeline that is modelled: the encoder side of
-    `wbxml_tree_to_wbxml` (encoder create → `encoder_encode_tree` → `wbxml_build_result` → encoder
-    destroy) without string table, for every document body and every k.  The parser side is covered
-    by `parse_element_clean`; the rest of the conversions (Expat call-backs, tree building, XML
-    printer, string table initialisation) by the enumeration of `tools/props/c16.py`, which is a
-    TEST and labelled so in the evidence. -/
-theorem oom_result_sound_partial (body : List Bytes) (version publicId : Nat) (s : Ledger) (wf : s.WF) :
-    OomResultSound (treeToWbxml false [] body version publicId) s := by
+/-- The same, up to the allocations that are inessential (`benign`): if such a request fails the
+    conversion may still return `WBXML_OK` with a correct — possibly different — result, and only
+    that result is left allocated. -/
+def OomResultSoundUpTo (conv : Prog (Nat × Option (Nat × Bytes))) (s : Ledger) (benign : Ledger → Nat → Prop) : Prop :=
+  ∀ k : Nat, ∃ r s', run conv { s with sched := failAt k } = (.ok r, s') ∧
+    ((r.1 ≠ OK ∧ r.2 = none ∧ ∀ i, i ∈ s'.live ↔ i ∈ s.live) ∨
+     ((run conv { s with sched := [] }).1 = .ok r ∧ ∀ i, i ∈ s'.live ↔ i ∈ s.live ∨ i ∈ ownedResult r.2) ∨
+     (benign { s with sched := failAt k } k ∧ r.1 = OK ∧ ∀ i, i ∈ s'.live ↔ i ∈ s.live ∨ i ∈ ownedResult r.2))
+
+theorem OomResultSoundUpTo.strict {conv : Prog (Nat × Option (Nat × Bytes))} {s : Ledger} {benign : Ledger → Nat → Prop}
+    (h : OomResultSoundUpTo conv s benign) (hb : ∀ t k, ¬ benign t k) : OomResultSound conv s := by
   intro k
-  have hspec := treeToWbxml_spec false [] body version publicId (fun h => by cases h) { s with sched := failAt k } (wf_of_eq wf rfl rfl)
-  obtain ⟨r, t, hrun, hc, hnone, herr⟩ := hspec.elim
+  obtain ⟨r, s', hrun, h1 | h2 | h3⟩ := h k
+  · exact ⟨r, s', hrun, Or.inl h1⟩
+  · exact ⟨r, s', hrun, Or.inr h2⟩
+  · exact (hb _ _ h3.1).elim
+
+/-- `wbxml_tree_to_wbxml` under ANY schedule, with or without string table, for every tree: no
+    fault, no result with an error code, nothing but the result stays allocated, and a failed request
+    that is not benign (`TreeBenign`) yields an error code. -/
+theorem tree_to_wbxml_no_leak (useStrtbl : Bool) (texts : List ABuf)
+    (body : List Bytes) (version publicId : Nat) (s : Ledger) (wf : s.WF) (htx : ∀ t ∈ texts, t.hdr ∈ s.live) :
+    ∀ sched : List Nat, ∃ r s', run (treeToWbxml useStrtbl texts body version publicId) { s with sched := sched } = (.ok r, s') ∧
+      (r.1 ≠ OK → r.2 = none) ∧ (∀ i, i ∈ s'.live ↔ i ∈ s.live ∨ i ∈ ownedResult r.2) ∧
+      (∀ k ∈ sched, s.next < k → k ≤ s'.next → ¬ TreeBenign useStrtbl texts { s with sched := sched } k → r.1 ≠ OK) := by
+  intro sched
+  obtain ⟨r, t, hrun, hc, hnone, _, hrep⟩ :=
+    (treeToWbxml_spec useStrtbl texts body version publicId { s with sched := sched } (wf_of_eq wf rfl rfl) htx).elim
+  exact ⟨r, t, hrun, hnone, fun i => by have := hc.live i; simpa using this,
+    fun k hk a b hnb => hrep k ((fails_iff_mem _ k).2 hk) a b hnb⟩
+
+/-- Without string table nothing is benign. -/
+theorem tree_benign_false (texts : List ABuf) (t : Ledger) (k : Nat) : ¬ TreeBenign false texts t k := by
+  rintro ⟨e0, s1, _, hu, _⟩
+  simp at hu
+
+/-- `oom_result_sound`, proved for the part of the pipeline that is modelled: the encoder side of
+    `wbxml_tree_to_wbxml` (encoder create → `encoder_encode_tree` incl. `wbxml_strtbl_initialize` →
+    `wbxml_build_result` → encoder destroy), with or without string table, for every tree, every
+    document body and every k.  With the string table the clause holds up to the benign requests of
+    `strtbl_initialize_clean` (`TreeBenign`).  The parser side is covered by `parse_element_clean`;
+    the rest of the conversions (Expat call-backs, tree building, XML printer) by the enumeration of
+    `tools/props/c16.py`, which is a TEST and labelled so in the evidence. -/
+theorem oom_result_sound_partial (useStrtbl : Bool) (texts : List ABuf) (body : List Bytes) (version publicId : Nat)
+    (s : Ledger) (wf : s.WF) (htx : ∀ t ∈ texts, t.hdr ∈ s.live) :
+    OomResultSoundUpTo (treeToWbxml useStrtbl texts body version publicId) s (TreeBenign useStrtbl texts) := by
+  intro k
+  have hspec := treeToWbxml_spec useStrtbl texts body version publicId { s with sched := failAt k } (wf_of_eq wf rfl rfl) htx
+  obtain ⟨r, t, hrun, hc, hnone, _, hrep⟩ := hspec.elim
   refine ⟨r, t, hrun, ?_⟩
-  by_cases hh : ({ s with sched := failAt k } : Ledger).hits < t.hits
-  · have hne := herr rfl hh
-    have hn := hnone hne
-    refine Or.inl ⟨hne, hn, fun i => ?_⟩
-    have := hc.live i
+  have hlive : ∀ i, i ∈ t.live ↔ i ∈ s.live ∨ i ∈ ownedResult r.2 := fun i => by have := hc.live i; simpa using this
+  by_cases hret : r.1 = OK
+  · by_cases hh : ({ s with sched := failAt k } : Ledger).hits < t.hits
+    · obtain ⟨k', hf, a, b⟩ := fail_of_hits hrun hh
+      have hk : k' = k := by simpa [Ledger.fails, failAt] using hf
+      subst hk
+      refine Or.inr (Or.inr ⟨?_, hret, hlive⟩)
+      apply Classical.byContradiction
+      intro hnb
+      exact hrep k' hf a b hnb hret
+    · refine Or.inr (Or.inl ⟨?_, hlive⟩)
+      have hle := hc.hits
+      have heq : (run (treeToWbxml useStrtbl texts body version publicId) { s with sched := failAt k }).2.hits =
+          ({ s with sched := failAt k } : Ledger).hits := by
+        rw [hrun]; simp at hle hh ⊢; omega
+      have := run_nohit _ { s with sched := failAt k } heq
+      rw [hrun] at this
+      simpa using congrArg Prod.fst this
+  · have hn := hnone hret
+    refine Or.inl ⟨hret, hn, fun i => ?_⟩
+    have := hlive i
     rw [hn] at this
     simpa [ownedResult] using this
-  · refine Or.inr ⟨?_, fun i => by have := hc.live i; simpa using this⟩
-    have hle := hc.hits
-    have heq : (run (treeToWbxml false [] body version publicId) { s with sched := failAt k }).2.hits =
-        ({ s with sched := failAt k } : Ledger).hits := by
-      rw [hrun]; simp at hle hh ⊢; omega
-    have := run_nohit _ { s with sched := failAt k } heq
-    rw [hrun] at this
-    simpa using congrArg Prod.fst this
 
-/-- The same under any schedule, with the string table, provided its initialisation is clean: no
-    fault, and nothing but the result stays allocated. -/
-theorem tree_to_wbxml_no_leak_partial (useStrtbl : Bool) (texts : List ABuf) (hinit : useStrtbl = true → InitClean texts)
-    (body : List Bytes) (version publicId : Nat) (s : Ledger) (wf : s.WF) :
-    ∀ sched : List Nat, ∃ r s', run (treeToWbxml useStrtbl texts body version publicId) { s with sched := sched } = (.ok r, s') ∧
-      (r.1 ≠ OK → r.2 = none) ∧ (∀ i, i ∈ s'.live ↔ i ∈ s.live ∨ i ∈ ownedResult r.2) := by
-  intro sched
-  obtain ⟨r, t, hrun, hc, hnone, _⟩ :=
-    (treeToWbxml_spec useStrtbl texts body version publicId hinit { s with sched := sched } (wf_of_eq wf rfl rfl)).elim
-  exact ⟨r, t, hrun, hnone, fun i => by have := hc.live i; simpa using this⟩
+/-- Without string table: the strict clause. -/
+theorem oom_result_sound_no_strtbl (body : List Bytes) (version publicId : Nat) (s : Ledger) (wf : s.WF) :
+    OomResultSound (treeToWbxml false [] body version publicId) s :=
+  (oom_result_sound_partial false [] body version publicId s wf (fun t ht => by cases ht)).strict
+    (fun t k => tree_benign_false [] t k)
+
+/-! ### With the string table the strict clause does not hold — and is not meant to -/
+
+/-- Status and output bytes of a conversion run. -/
+def resultIs (r : Except Err (Nat × Option (Nat × Bytes)) × Ledger) (code : Nat) (bytes : Option Bytes) : Bool :=
+  match r.1 with
+  | .ok x => x.1 == code && x.2.map (·.2) == bytes
+  | .error _ => false
+
+theorem resultIs_ok {x : Except Err (Nat × Option (Nat × Bytes)) × Ledger} {r : Nat × Option (Nat × Bytes)}
+    {code : Nat} {bytes : Option Bytes} (h : x.1 = .ok r) (hr : resultIs x code bytes = true) :
+    r.1 = code ∧ r.2.map (·.2) = bytes := by
+  unfold resultIs at hr
+  rw [h] at hr
+  simpa using hr
+
+/-- Two text nodes "abcd" (blocks 1 and 2 of the caller's tree). -/
+def benignTexts : List ABuf := [⟨1, none, b!"abcd", 0, true⟩, ⟨2, none, b!"abcd", 0, true⟩]
+def benignStart : Ledger := { next := 2, live := [1, 2] }
+
+/-- Request 7 is the first `wbxml_list_append` of `wbxml_strtbl_collect_strings`: when it fails the
+    conversion still returns `WBXML_OK`, with an empty string table instead of the table {"abcd"}. -/
+theorem strtbl_benign_failure_changes_output :
+    resultIs (run (treeToWbxml true benignTexts [[0x45]] 3 10) { benignStart with sched := failAt 7 }) 0
+      (some [3, 10, 106, 0, 69]) = true ∧
+    resultIs (run (treeToWbxml true benignTexts [[0x45]] 3 10) { benignStart with sched := [] }) 0
+      (some [3, 10, 106, 5, 97, 98, 99, 100, 0, 69]) = true := by decide
+
+/-- Hence the strict `OomResultSound` is false with the string table: the statement that holds is
+    `oom_result_sound_partial` (`OomResultSoundUpTo … TreeBenign`). -/
+theorem oom_result_sound_strict_fails_with_strtbl :
+    ¬ OomResultSound (treeToWbxml true benignTexts [[0x45]] 3 10) benignStart := by
+  intro h
+  obtain ⟨a, b⟩ := strtbl_benign_failure_changes_output
+  obtain ⟨r, s', hrun, h1 | h2⟩ := h 7
+  · exact h1.1 (resultIs_ok (congrArg Prod.fst hrun) a).1
+  · have := (resultIs_ok (congrArg Prod.fst hrun) a).2.symm.trans (resultIs_ok h2.1 b).2
+    simp at this
+
+/-- The hypotheses of `strtbl_initialize_clean` / `oom_result_sound_partial` are satisfiable (the
+    scenario above). -/
+example : benignStart.WF ∧ (∀ t ∈ benignTexts, t.hdr ∈ benignStart.live) := by
+  refine ⟨fun i hi => ?_, fun t ht => ?_⟩
+  · simp [benignStart] at hi ⊢; omega
+  · simp [benignTexts] at ht; rcases ht with rfl | rfl <;> simp [benignStart]
+
+example : ∃ (e : AEnc) (s : Ledger), s.WF ∧ Owns s e.owned ∧
+    (∀ t ∈ benignTexts, t.hdr ∈ s.live ∧ t.hdr ∉ e.owned) ∧ TableValid e := by
+  refine ⟨⟨3, some ⟨4, []⟩, 0, none, true⟩, { next := 4, live := [1, 2, 3, 4] }, ?_, ?_, ?_, ?_⟩
+  · intro i hi; simp at hi ⊢; omega
+  · exact ⟨by decide, by decide⟩
+  · intro t ht; simp [benignTexts] at ht; rcases ht with rfl | rfl <;> decide
+  · exact TableValid.of_empty ⟨4, []⟩ rfl rfl rfl
+
+/-! ## Tree building: the call-backs of the WBXML parser (`wbxml_tree_clb_wbxml_*`) -/
+
+theorem ev_ready_of_eq {b : Nat} {s s' : Ledger} {e : TEvent} (h : EvReady b s e) (hl : s'.live = s.live) : EvReady b s' e :=
+  fun X hX => ⟨owns_of_eq (h X hX).1 hl, (h X hX).2⟩
+
+/-- One event delivered to the tree-building call-backs (`start_element` with
+    `wbxml_tree_add_elt_with_attrs` / `wbxml_tree_extract_node`, `end_element`, `characters` with
+    `wbxml_tree_add_cdata` / `wbxml_tree_add_text` and the join of adjacent text nodes), for every
+    consistent context and every schedule: no fault; the context owns afterwards exactly what it
+    owned plus what was allocated and not released again (nothing leaks, the tag and the attributes
+    of the parser are untouched); and a failed request leaves an error code in the context. -/
+theorem tree_clb_event_clean (c : TCtx) (e : TEvent) (s : Ledger) (wf : s.WF) (hok : c.ok) (own : Owns s c.owned)
+    (b : Nat) (hb : ∀ i ∈ c.owned, b < i) (hr : EvReady b s e) :
+    AnyScheduleClean (clbEvent c e) (fun c' => c'.error != OK) s c.owned TCtx.owned :=
+  clean_of_spec fun s' hl hn =>
+    (clbEvent_spec c e s' (wf_of_eq wf hl hn) hok (owns_of_eq own hl) b hb (ev_ready_of_eq hr hl)).mono
+      fun c' t ⟨_, _, cl, h, _⟩ => ⟨cl, fun hh => by simpa using h hh⟩
+
+/-- … the context stays consistent, keeps its tree, and an error code is never cleared. -/
+theorem tree_clb_event_keeps (c : TCtx) (e : TEvent) (s : Ledger) (wf : s.WF) (hok : c.ok) (own : Owns s c.owned)
+    (b : Nat) (hb : ∀ i ∈ c.owned, b < i) (hr : EvReady b s e) :
+    Good (clbEvent c e) s (fun c' _ => c'.tree = c.tree ∧ c'.ok ∧ (c.error ≠ OK → c'.error ≠ OK)) :=
+  (clbEvent_spec c e s wf hok own b hb hr).mono fun c' t ⟨a, b', _, _, d⟩ => ⟨a, b', d⟩
+
+/-- A list of events, by induction on the list. -/
+theorem tree_clb_events_clean (events : List TEvent) (c : TCtx) (s : Ledger) (wf : s.WF) (hok : c.ok) (own : Owns s c.owned)
+    (b : Nat) (hbs : b ≤ s.next) (hb : ∀ i ∈ c.owned, b < i) (hr : ∀ e ∈ events, EvReady b s e) :
+    AnyScheduleClean (clbEvents c events) (fun c' => c'.error != OK) s c.owned TCtx.owned :=
+  clean_of_spec fun s' hl hn =>
+    (clbEvents_spec events c s' (wf_of_eq wf hl hn) hok (owns_of_eq own hl) b (by rw [hn]; exact hbs) hb
+      (fun e he => ev_ready_of_eq (hr e he) hl)).mono
+      fun c' t ⟨_, _, cl, h, _⟩ => ⟨cl, fun hh => by simpa using h hh⟩
+
+/-- `wbxml_tree_destroy`: everything the tree owns is released, once. -/
+theorem tree_destroy_clean (c : TCtx) (s : Ledger) (wf : s.WF) (own : Owns s c.owned) :
+    AnyScheduleClean (treeDestroy c) (fun _ => false) s c.owned (fun _ => []) :=
+  clean_of_spec fun s' hl hn => (treeDestroy_spec c s' (wf_of_eq wf hl hn) (owns_of_eq own hl)).mono
+    fun r u ⟨cl, h, _⟩ => ⟨cl, fun hh => by omega⟩
+
+/-- `tree_from_wbxml_events_clean`: the tree side of `wbxml_tree_from_wbxml` (`wbxml_tree_create`, the
+    call-backs on the events of a parse, `wbxml_tree_destroy` when a call-back reported an error), for
+    EVERY list of events and every schedule: no fault; an error code with the tree destroyed and
+    nothing left allocated, or `WBXML_OK` with the tree owning everything that is left; an error
+    whenever a request failed. -/
+theorem tree_from_wbxml_events_clean (events : List TEvent) (s : Ledger) (wf : s.WF)
+    (hr : ∀ e ∈ events, ∀ X ∈ evObjs e, Owns s X) :
+    AnyScheduleClean (treeFromEvents events) (fun r => r.1 != OK) s [] (fun r => ownedCtxOpt r.2) :=
+  clean_of_spec fun s' hl hn =>
+    (treeFromEvents_spec events s' (wf_of_eq wf hl hn) (fun e he X hX => owns_of_eq (hr e he X hX) hl)).mono
+      fun r t ⟨cl, _, h, _⟩ => ⟨cl, fun hh => by simpa using h hh⟩
+
+/-- … an error never comes with a tree, and a tree that is returned is consistent and error-free. -/
+theorem tree_from_wbxml_events_result (events : List TEvent) (s : Ledger) (wf : s.WF)
+    (hr : ∀ e ∈ events, ∀ X ∈ evObjs e, Owns s X) :
+    Good (treeFromEvents events) s (fun r _ => (r.1 ≠ OK → r.2 = none) ∧ ∀ c, r.2 = some c → c.ok ∧ c.error = OK) :=
+  (treeFromEvents_spec events s wf hr).mono fun r t ⟨_, a, _, b⟩ => ⟨a, b⟩
+
+theorem single_failure_clean_tree_from_wbxml_events (events : List TEvent) (s : Ledger) (wf : s.WF)
+    (hr : ∀ e ∈ events, ∀ X ∈ evObjs e, Owns s X) :
+    SingleFailureClean (treeFromEvents events) (fun r => r.1 != OK) s [] (fun r => ownedCtxOpt r.2) :=
+  (tree_from_wbxml_events_clean events s wf hr).single
+
+/-- The hypotheses are satisfiable: `<T5 id="x">ab</T5>` with the tag and the attribute owned by the
+    parser (blocks 1 … 6). -/
+example : ∃ (events : List TEvent) (s : Ledger), s.WF ∧ events.length = 3 ∧ ∀ e ∈ events, ∀ X ∈ evObjs e, Owns s X := by
+  refine ⟨[.start ⟨1, .token 5⟩ [⟨2, some ⟨3, .token 7⟩, some ⟨4, some 5, b!"x", 2, false⟩⟩], .chars b!"ab" false, .stop],
+    { next := 6, live := [1, 2, 3, 4, 5, 6] }, ?_, rfl, ?_⟩
+  · intro i hi; simp at hi ⊢; omega
+  · intro e he X hX
+    simp only [List.mem_cons, List.mem_singleton, List.not_mem_nil, or_false] at he
+    rcases he with rfl | rfl | rfl
+    · simp only [evObjs, List.map_cons, List.map_nil, List.mem_cons, List.not_mem_nil, or_false] at hX
+      rcases hX with rfl | rfl
+      · exact ⟨by decide, by decide⟩
+      · exact ⟨by decide, by decide⟩
+    · simp [evObjs] at hX
+    · simp [evObjs] at hX
 
 /-! ## The property's statement for one function, as `single_failure_clean` -/
 
